@@ -251,7 +251,7 @@ def scn_wire(params):
 
 
 def wire_params(ctx, rng):
-    n = ctx.pick(160, 3000)
+    n = ctx.pick(320, 20000)
     plist = []
     lens = list(range(1, 41))
     for i in range(n):
@@ -289,7 +289,7 @@ def run(ctx):
         "the callers' own signed seed+1 / seed-1 arithmetic is out of scope here (computed unsigned in the driver)",
     ]
     res.min_nontrivial = 40
-    nbase = ctx.pick(20000, 200000)
+    nbase = ctx.pick(20000, 1000000)
     nsens = ctx.pick(24, 240)
     rng = random.Random((ctx.seed * 2654435761) ^ 0xC19)
 
